@@ -37,6 +37,79 @@ Inductive jshape :=
 Definition is_jnull (j : json) : bool := match j with JNull => true | _ => false end.
 Definition is_nullable (a : jshape) : bool := match a with JNullable _ => true | _ => false end.
 
+(* ---------- traversal combinators (top-level so that lemmas can name them) ---------- *)
+Definition zip_fields {B} (f : jshape -> val -> B) : list (bytes * jshape) -> list val -> list (bytes * B) :=
+  fix go (fs : list (bytes * jshape)) (vs : list val) : list (bytes * B) :=
+    match fs, vs with
+    | (n, a') :: fr, x :: xr => (n, f a' x) :: go fr xr
+    | _, _ => []
+    end.
+Definition zip_ofields {B} (f : jshape -> option val -> B) : list (bytes * jshape) -> list (option val) -> list (bytes * B) :=
+  fix go (fs : list (bytes * jshape)) (os : list (option val)) : list (bytes * B) :=
+    match fs, os with
+    | (n, a') :: fr, o :: orr => (n, f a' o) :: go fr orr
+    | _, _ => []
+    end.
+Definition zip_shapes {B} (f : jshape -> val -> B) : list jshape -> list val -> list B :=
+  fix go (fs : list jshape) (vs : list val) : list B :=
+    match fs, vs with
+    | a' :: fr, x :: xr => f a' x :: go fr xr
+    | _, _ => []
+    end.
+(* all fields satisfy f; [strict]: the lists must have the same length *)
+Definition all_fields (strict : bool) (f : jshape -> val -> bool) : list (bytes * jshape) -> list val -> bool :=
+  fix go (fs : list (bytes * jshape)) (vs : list val) : bool :=
+    match fs, vs with
+    | [], [] => true
+    | (_, a') :: fr, x :: xr => f a' x && go fr xr
+    | _, _ => negb strict
+    end.
+Definition all_ofields (strict : bool) (f : jshape -> option val -> bool) : list (bytes * jshape) -> list (option val) -> bool :=
+  fix go (fs : list (bytes * jshape)) (os : list (option val)) : bool :=
+    match fs, os with
+    | [], [] => true
+    | (_, a') :: fr, o :: orr => f a' o && go fr orr
+    | _, _ => negb strict
+    end.
+Definition all_shapes (strict : bool) (f : jshape -> val -> bool) : list jshape -> list val -> bool :=
+  fix go (fs : list jshape) (vs : list val) : bool :=
+    match fs, vs with
+    | [], [] => true
+    | a' :: fr, x :: xr => f a' x && go fr xr
+    | _, _ => negb strict
+    end.
+Definition pick_variant {B} (dflt : B) (f : bytes -> option jshape -> B) : list (bytes * option jshape) -> nat -> B :=
+  fix pick (vs : list (bytes * option jshape)) (i : nat) : B :=
+    match vs, i with
+    | (n, p) :: _, O => f n p
+    | _ :: r, S i' => pick r i'
+    | [], _ => dflt
+    end.
+Definition find_variant (s : bytes) (f : nat -> option jshape -> result val) : list (bytes * option jshape) -> nat -> result val :=
+  fix find (vs : list (bytes * option jshape)) (i : nat) : result val :=
+    match vs with
+    | [] => Err
+    | (n, p) :: r => if bytes_eqb n s then f i p else find r (S i)
+    end.
+Definition read_fields {B} (f : jshape -> option json -> result B) (l : list (bytes * json)) : list (bytes * jshape) -> result (list B) :=
+  fix go (fs : list (bytes * jshape)) : result (list B) :=
+    match fs with
+    | [] => Ok []
+    | (n, a') :: fr => let* x := f a' (obj_get n l) in let* xs := go fr in Ok (x :: xs)
+    end.
+Definition read_tuple (f : jshape -> json -> result val) : list jshape -> list json -> result (list val) :=
+  fix go (fs : list jshape) (l : list json) : result (list val) :=
+    match fs, l with
+    | [], [] => Ok []
+    | a' :: fr, x :: xr => let* y := f a' x in let* ys := go fr xr in Ok (y :: ys)
+    | _, _ => Err
+    end.
+Definition all_wfj (f : jshape -> bool) : list (bytes * jshape) -> bool :=
+  fix go (fs : list (bytes * jshape)) : bool := match fs with [] => true | (_, a') :: r => f a' && go r end.
+Definition all_wfj_opt (f : jshape -> bool) : list (bytes * option jshape) -> bool :=
+  fix go (vs : list (bytes * option jshape)) : bool :=
+    match vs with [] => true | (_, p) :: r => (match p with Some a' => f a' | None => true end) && go r end.
+
 Section Ext.
   Variable ext_str : N -> bytes -> bytes.
   Variable ext_of_str : N -> bytes -> option bytes.
@@ -111,52 +184,22 @@ Section Ext.
   Fixpoint json_s (a : jshape) (v : val) {struct a} : json :=
     match a with
     | JLeaf l => leaf_json l v
-    | JRec fs =>
-        match v with
-        | VList vs =>
-            JObj (obj_of_list
-              ((fix go (fs : list (bytes * jshape)) (vs : list val) : list (bytes * json) :=
-                  match fs, vs with
-                  | (n, a') :: fr, x :: xr => (n, json_s a' x) :: go fr xr
-                  | _, _ => []
-                  end) fs vs))
-        | _ => JNull
-        end
+    | JRec fs => match v with VList vs => JObj (obj_of_list (zip_fields json_s fs vs)) | _ => JNull end
     | JOptRec fs =>
         match v with
         | VStruct os =>
-            JObj (obj_of_list
-              ((fix go (fs : list (bytes * jshape)) (os : list (option val)) : list (bytes * json) :=
-                  match fs, os with
-                  | (n, a') :: fr, o :: orr =>
-                      (n, match o with Some x => json_s a' x | None => JNull end) :: go fr orr
-                  | _, _ => []
-                  end) fs os))
+            JObj (obj_of_list (zip_ofields (fun a' o => match o with Some x => json_s a' x | None => JNull end) fs os))
         | _ => JNull
         end
     | JEnum vs =>
         match v with
         | VVar i l =>
-            (fix pick (vs : list (bytes * option jshape)) (i : nat) : json :=
-               match vs, i with
-               | (n, p) :: _, O => match p with None => JStr n | Some a' => JObj [(n, json_s a' (VList l))] end
-               | _ :: r, S i' => pick r i'
-               | [], _ => JNull
-               end) vs i
+            pick_variant JNull (fun n p => match p with None => JStr n | Some a' => JObj [(n, json_s a' (VList l))] end) vs i
         | _ => JNull
         end
     | JSingle a' => match v with VList [x] => json_s a' x | _ => JNull end
     | JSeq a' => match v with VList l => JArr (List.map (json_s a') l) | _ => JNull end
-    | JTuple fs =>
-        match v with
-        | VList vs =>
-            JArr ((fix go (fs : list jshape) (vs : list val) : list json :=
-                     match fs, vs with
-                     | a' :: fr, x :: xr => json_s a' x :: go fr xr
-                     | _, _ => []
-                     end) fs vs)
-        | _ => JNull
-        end
+    | JTuple fs => match v with VList vs => JArr (zip_shapes json_s fs vs) | _ => JNull end
     | JMapObj k _ a' =>
         match v with
         | VMap l =>
@@ -180,74 +223,37 @@ Section Ext.
     | JRec fs =>
         match j with
         | JObj l =>
-            let* vs := (fix go (fs : list (bytes * jshape)) : result (list val) :=
-                          match fs with
-                          | [] => Ok []
-                          | (n, a') :: fr =>
-                              let* x := match obj_get n l with
-                                        | Some jx => of_json_s a' jx
-                                        | None => if is_nullable a' then Ok VNull else Err   (* a missing Option field *)
-                                        end in
-                              let* xs := go fr in Ok (x :: xs)
-                          end) fs in
+            let* vs := read_fields (fun a' o => match o with
+                                                | Some jx => of_json_s a' jx
+                                                | None => if is_nullable a' then Ok VNull else Err   (* a missing Option field *)
+                                                end) l fs in
             Ok (VList vs)
         | _ => Err
         end
     | JOptRec fs =>
         match j with
         | JObj l =>
-            let* os := (fix go (fs : list (bytes * jshape)) : result (list (option val)) :=
-                          match fs with
-                          | [] => Ok []
-                          | (n, a') :: fr =>
-                              let* o := match obj_get n l with
-                                        | Some JNull | None => Ok None
-                                        | Some jx => let* x := of_json_s a' jx in Ok (Some x)
-                                        end in
-                              let* os := go fr in Ok (o :: os)
-                          end) fs in
+            let* os := read_fields (fun a' o => match o with
+                                                | Some JNull | None => Ok None
+                                                | Some jx => let* x := of_json_s a' jx in Ok (Some x)
+                                                end) l fs in
             Ok (VStruct os)
         | _ => Err
         end
     | JEnum vs =>
         match j with
-        | JStr s =>
-            (fix find (vs : list (bytes * option jshape)) (i : nat) : result val :=
-               match vs with
-               | [] => Err
-               | (n, p) :: r =>
-                   if bytes_eqb n s then match p with None => Ok (VVar i []) | Some _ => Err end
-                   else find r (S i)
-               end) vs O
+        | JStr s => find_variant s (fun i p => match p with None => Ok (VVar i []) | Some _ => Err end) vs O
         | JObj [(s, jp)] =>
-            (fix find (vs : list (bytes * option jshape)) (i : nat) : result val :=
-               match vs with
-               | [] => Err
-               | (n, p) :: r =>
-                   if bytes_eqb n s then
-                     match p with
-                     | Some a' => let* pv := of_json_s a' jp in
-                                  match pv with VList l => Ok (VVar i l) | _ => Err end
-                     | None => Err
-                     end
-                   else find r (S i)
-               end) vs O
+            find_variant s (fun i p => match p with
+                                       | Some a' => let* pv := of_json_s a' jp in
+                                                    match pv with VList l => Ok (VVar i l) | _ => Err end
+                                       | None => Err
+                                       end) vs O
         | _ => Err
         end
     | JSingle a' => let* x := of_json_s a' j in Ok (VList [x])
     | JSeq a' => match j with JArr l => let* xs := mapM (of_json_s a') l in Ok (VList xs) | _ => Err end
-    | JTuple fs =>
-        match j with
-        | JArr l =>
-            let* vs := (fix go (fs : list jshape) (l : list json) : result (list val) :=
-                          match fs, l with
-                          | [], [] => Ok []
-                          | a' :: fr, x :: xr => let* y := of_json_s a' x in let* ys := go fr xr in Ok (y :: ys)
-                          | _, _ => Err
-                          end) fs l in
-            Ok (VList vs)
-        | _ => Err
-        end
+    | JTuple fs => match j with JArr l => let* vs := read_tuple of_json_s fs l in Ok (VList vs) | _ => Err end
     | JMapObj k okey a' =>
         match j with
         | JObj l =>
@@ -264,58 +270,30 @@ Section Ext.
 
   (* ---------- what comes back ---------- *)
   Definition key_str (k : leaf) (x : val) : bytes := match leaf_str k x with Some s => s | None => [] end.
+  Definition as_var (i : nat) (dflt : val) (v : val) : val := match v with VList l' => VVar i l' | _ => dflt end.
 
   Fixpoint norm_s (a : jshape) (v : val) {struct a} : val :=
     match a with
     | JLeaf _ => v
-    | JRec fs =>
-        match v with
-        | VList vs =>
-            VList ((fix go (fs : list (bytes * jshape)) (vs : list val) : list val :=
-                      match fs, vs with
-                      | (_, a') :: fr, x :: xr => norm_s a' x :: go fr xr
-                      | _, _ => []
-                      end) fs vs)
-        | _ => v
-        end
+    | JRec fs => match v with VList vs => VList (List.map snd (zip_fields norm_s fs vs)) | _ => v end
     | JOptRec fs =>
         match v with
         | VStruct os =>
-            VStruct ((fix go (fs : list (bytes * jshape)) (os : list (option val)) : list (option val) :=
-                        match fs, os with
-                        | (_, a') :: fr, o :: orr =>
-                            (match o with Some x => Some (norm_s a' x) | None => None end) :: go fr orr
-                        | _, _ => []
-                        end) fs os)
+            VStruct (List.map snd (zip_ofields (fun a' o => match o with Some x => Some (norm_s a' x) | None => None end) fs os))
         | _ => v
         end
     | JEnum vs =>
         match v with
         | VVar i l =>
-            (fix pick (vs : list (bytes * option jshape)) (j : nat) : val :=
-               match vs, j with
-               | (_, p) :: _, O =>
-                   match p with
-                   | None => VVar i []
-                   | Some a' => match norm_s a' (VList l) with VList l' => VVar i l' | _ => v end
-                   end
-               | _ :: r, S j' => pick r j'
-               | [], _ => v
-               end) vs i
+            pick_variant v (fun _ p => match p with
+                                       | None => VVar i []
+                                       | Some a' => as_var i v (norm_s a' (VList l))
+                                       end) vs i
         | _ => v
         end
     | JSingle a' => match v with VList [x] => VList [norm_s a' x] | _ => v end
     | JSeq a' => match v with VList l => VList (List.map (norm_s a') l) | _ => v end
-    | JTuple fs =>
-        match v with
-        | VList vs =>
-            VList ((fix go (fs : list jshape) (vs : list val) : list val :=
-                      match fs, vs with
-                      | a' :: fr, x :: xr => norm_s a' x :: go fr xr
-                      | _, _ => []
-                      end) fs vs)
-        | _ => v
-        end
+    | JTuple fs => match v with VList vs => VList (zip_shapes norm_s fs vs) | _ => v end
     | JMapObj k okey a' =>
         match v with
         | VMap l =>
@@ -329,62 +307,32 @@ Section Ext.
     end.
 
   (* ---------- domain ---------- *)
+  Definition is_vlist (v : val) : bool := match v with VList _ => true | _ => false end.
   Fixpoint jwf (a : jshape) (v : val) {struct a} : bool :=
     match a with
     | JLeaf l => leaf_wf l v
-    | JRec fs =>
-        match v with
-        | VList vs =>
-            (fix go (fs : list (bytes * jshape)) (vs : list val) : bool :=
-               match fs, vs with
-               | [], [] => true
-               | (_, a') :: fr, x :: xr =>
-                   jwf a' x && go fr xr
-               | _, _ => false
-               end) fs vs
-        | _ => false
-        end
+    | JRec fs => match v with VList vs => all_fields true jwf fs vs | _ => false end
     | JOptRec fs =>
         match v with
         | VStruct os =>
-            (fix go (fs : list (bytes * jshape)) (os : list (option val)) : bool :=
-               match fs, os with
-               | [], [] => true
-               | (_, a') :: fr, o :: orr =>
-                   (match o with Some x => jwf a' x && negb (is_jnull (json_s a' x)) | None => true end) && go fr orr
-               | _, _ => false
-               end) fs os
+            all_ofields true (fun a' o => match o with
+                                          | Some x => jwf a' x && negb (is_jnull (json_s a' x))
+                                          | None => true
+                                          end) fs os
         | _ => false
         end
     | JEnum vs =>
         match v with
         | VVar i l =>
-            (fix pick (vs : list (bytes * option jshape)) (i : nat) : bool :=
-               match vs, i with
-               | (_, p) :: _, O =>
-                   match p with
-                   | None => match l with [] => true | _ => false end
-                   | Some a' => jwf a' (VList l) &&
-                                match norm_s a' (VList l) with VList _ => true | _ => false end
-                   end
-               | _ :: r, S i' => pick r i'
-               | [], _ => false
-               end) vs i
+            pick_variant false (fun _ p => match p with
+                                           | None => match l with [] => true | _ => false end
+                                           | Some a' => jwf a' (VList l) && is_vlist (norm_s a' (VList l))
+                                           end) vs i
         | _ => false
         end
     | JSingle a' => match v with VList [x] => jwf a' x | _ => false end
     | JSeq a' => match v with VList l => forallb (jwf a') l | _ => false end
-    | JTuple fs =>
-        match v with
-        | VList vs =>
-            (fix go (fs : list jshape) (vs : list val) : bool :=
-               match fs, vs with
-               | [], [] => true
-               | a' :: fr, x :: xr => jwf a' x && go fr xr
-               | _, _ => false
-               end) fs vs
-        | _ => false
-        end
+    | JTuple fs => match v with VList vs => all_shapes true jwf fs vs | _ => false end
     | JMapObj k _ a' =>
         match v with
         | VMap l =>
@@ -429,49 +377,20 @@ Section Ext.
   Fixpoint canonical (a : jshape) (v : val) {struct a} : bool :=
     match a with
     | JLeaf _ => true
-    | JRec fs =>
-        match v with
-        | VList vs =>
-            (fix go (fs : list (bytes * jshape)) (vs : list val) : bool :=
-               match fs, vs with
-               | (_, a') :: fr, x :: xr => canonical a' x && go fr xr
-               | _, _ => true
-               end) fs vs
-        | _ => true
-        end
+    | JRec fs => match v with VList vs => all_fields false canonical fs vs | _ => true end
     | JOptRec fs =>
         match v with
-        | VStruct os =>
-            (fix go (fs : list (bytes * jshape)) (os : list (option val)) : bool :=
-               match fs, os with
-               | (_, a') :: fr, o :: orr => (match o with Some x => canonical a' x | None => true end) && go fr orr
-               | _, _ => true
-               end) fs os
+        | VStruct os => all_ofields false (fun a' o => match o with Some x => canonical a' x | None => true end) fs os
         | _ => true
         end
     | JEnum vs =>
         match v with
-        | VVar i l =>
-            (fix pick (vs : list (bytes * option jshape)) (i : nat) : bool :=
-               match vs, i with
-               | (_, p) :: _, O => match p with None => true | Some a' => canonical a' (VList l) end
-               | _ :: r, S i' => pick r i'
-               | [], _ => true
-               end) vs i
+        | VVar i l => pick_variant true (fun _ p => match p with None => true | Some a' => canonical a' (VList l) end) vs i
         | _ => true
         end
     | JSingle a' => match v with VList [x] => canonical a' x | _ => true end
     | JSeq a' => match v with VList l => forallb (canonical a') l | _ => true end
-    | JTuple fs =>
-        match v with
-        | VList vs =>
-            (fix go (fs : list jshape) (vs : list val) : bool :=
-               match fs, vs with
-               | a' :: fr, x :: xr => canonical a' x && go fr xr
-               | _, _ => true
-               end) fs vs
-        | _ => true
-        end
+    | JTuple fs => match v with VList vs => all_shapes false canonical fs vs | _ => true end
     | JMapObj k okey a' =>
         match v with
         | VMap l =>
@@ -488,19 +407,12 @@ Section Ext.
   Fixpoint wfj (a : jshape) : bool :=
     match a with
     | JLeaf _ => true
-    | JRec fs =>
-        bytes_nodupb (List.map fst fs) &&
-        (fix go (fs : list (bytes * jshape)) : bool := match fs with [] => true | (_, a') :: r => wfj a' && go r end) fs
-    | JOptRec fs =>
-        bytes_nodupb (List.map fst fs) &&
-        (fix go (fs : list (bytes * jshape)) : bool := match fs with [] => true | (_, a') :: r => wfj a' && go r end) fs
-    | JEnum vs =>
-        bytes_nodupb (List.map fst vs) &&
-        (fix go (vs : list (bytes * option jshape)) : bool :=
-           match vs with [] => true | (_, p) :: r => (match p with Some a' => wfj a' | None => true end) && go r end) vs
+    | JRec fs => bytes_nodupb (List.map fst fs) && all_wfj wfj fs
+    | JOptRec fs => bytes_nodupb (List.map fst fs) && all_wfj wfj fs
+    | JEnum vs => bytes_nodupb (List.map fst vs) && all_wfj_opt wfj vs
     | JSingle a' => wfj a'
     | JSeq a' => wfj a'
-    | JTuple fs => (fix go (fs : list jshape) : bool := match fs with [] => true | a' :: r => wfj a' && go r end) fs
+    | JTuple fs => forallb wfj fs
     | JMapObj _ _ a' => wfj a'
     | JNullable a' => wfj a'
     | JIso _ _ a' => wfj a'
